@@ -90,6 +90,7 @@ def gen_plan(seed, tier="quick"):
         mask = (1 << res_) - 1
         plan["value"] = r.choice([0, mask, 1, 1 << (res_ - 1), r.getrandbits(res_), r.getrandbits(res_)]) & mask
         plan["given"] = r.random() < 0.5
+        plan["arg_form"] = plans.rng_for(seed, PROP + "-forms").choice(["objects", "objects", "ints", "int-device", "int-instance"])
         plan["change_at"] = r.choice([None, None, 1, 2, 3, 4])
         plan["new_value"] = r.getrandbits(res_)
     elif kind in ("setfilter", "queryfilter"):
@@ -172,8 +173,12 @@ def run_plan(plan):
         def env(i, cmd, b):
             if plan["change_at"] is not None and i == plan["change_at"]:
                 inst.value = plan["new_value"]
-        gen = query_input_value(DeviceShort(dev_addr), InstanceNumber(inst_no),
-                                resolution=res_n if plan["given"] else None)
+        # "ints are common enough for addresses": every mix of plain ints and address objects
+        af = plan.get("arg_form", "objects")
+        a_dev = dev_addr if af in ("ints", "int-device") else DeviceShort(dev_addr)
+        a_inst = inst_no if af in ("ints", "int-instance") else InstanceNumber(inst_no)
+        probes["address-arguments-" + af] = 1
+        gen = query_input_value(a_dev, a_inst, resolution=res_n if plan["given"] else None)
         sr = busim.run_sequence(gen, bus, answer_faults=faults, cap=40, env=env, log=log)
         fired = [c for c in sr.commands if c[4]]
         # which value was latched: the one current when QUERY INPUT VALUE arrived
